@@ -979,9 +979,13 @@ def build_field(fs, g, salt=0):
     return cls(g, data, label=fs["label"], dtype=np.dtype(fs["dtype"]))
 
 
+# byte order is part of a dtype: data read from big-endian files keeps `>f8` (single fields only; collections cast)
+DTYPES_SWAPPED = [">f8", ">f4", ">c16", ">i4"]
+
+
 def gen_field(rng, gspec):
     return {"fcls": rng.choice(["scalar", "vector", "tensor2"]), "label": rng.choice(LABELS),
-            "dtype": rng.choice(DTYPES), "grid": gspec}
+            "dtype": rng.choice(DTYPES_SWAPPED) if rng.random() < 0.08 else rng.choice(DTYPES), "grid": gspec}
 
 
 def mfield(fs):
@@ -1004,8 +1008,10 @@ def atoms_to_values(atoms, source):
     return np.array(out)
 
 
-def field_identical(f, h, check_grid_object=False):
-    """monitor of the field part of the property: None or what differs"""
+def field_identical(f, h, check_grid_object=False, byteorder_external=False):
+    """monitor of the field part of the property: None or what differs.  `byteorder_external`: numpy's own pickling of an
+    array returns native byte order (`pickle.loads(pickle.dumps(np.zeros(1, '>f8'))).dtype.str == '<f8'`) - for the pickle
+    route the byte order of the dtype is numpy's, not py-pde's, to keep"""
     if isinstance(h, Exception):
         return f"raised {exc_name(h)}: {h}"
     if type(h) is not type(f):
@@ -1015,7 +1021,8 @@ def field_identical(f, h, check_grid_object=False):
         return "grid: " + bad
     if h.label != f.label:
         return f"label {h.label!r} instead of {f.label!r}"
-    if np.dtype(h.dtype) != np.dtype(f.dtype):
+    if np.dtype(h.dtype) != np.dtype(f.dtype) and not (
+            byteorder_external and np.dtype(h.dtype).newbyteorder("=") == np.dtype(f.dtype).newbyteorder("=")):
         return f"dtype {np.dtype(h.dtype).str} instead of {np.dtype(f.dtype).str}"
     if h.data.shape != f.data.shape or not np.array_equal(h.data, f.data):
         return "data differ"
@@ -1148,7 +1155,7 @@ def leg_field(ctx, P, fs, salt):
     routes = field_routes(f)
     for name, h in routes.items():
         ctx.monitor_evals += 1
-        bad = field_identical(f, h)
+        bad = field_identical(f, h, byteorder_external=(name == "pickle"))
         if bad is None and name in ("pickle", "copy.deepcopy"):
             bad = linked_after_restore(h)
         if bad:
